@@ -160,6 +160,14 @@ let dispatch (cmd : string) (t : tree) : tree =
       (match Refine.select (r_list mk cs) with
        | None -> L []
        | Some c -> L [L [w_nat c.Refine.c_comp; w_nat c.Refine.c_pos]])
+  | "grid_run", [kpl; rr; latent; batches] ->
+      let batches = r_list (r_list (r_pair (r_list r_nat) (r_list r_nat))) batches in
+      let (_, evals) = Grid.run_history (fun k -> k) [] (r_nat kpl) (r_bool rr) (r_list r_nat latent) batches in
+      w_list (fun (a, c) -> L [w_list w_nat a; w_list w_nat c]) evals
+  | "grid_knots", [kpl; rr; latent; beta] ->
+      w_list (w_list w_nat) (Grid.beta_to_knots (r_nat kpl) (r_bool rr) (r_list r_nat latent) (r_list r_nat beta))
+  | "cost_alloc", [calls] ->
+      let (c, n) = Cost.allocation (r_list r_qs calls) in L [w_q c; w_z n]
   | "shape_loop", [shapes] -> w_list w_nat (Shape.loop_shape (r_list r_shape shapes))
   | "shape_fmt_input", [l; s; data] -> w_list (w_list w_z) (Shape.fmt_input (r_shape l) (r_shape s) (r_list r_z data))
   | "shape_out", [l; o] -> w_list w_nat (Shape.fmt_output_shape (r_shape l) (r_shape o))
